@@ -9,6 +9,7 @@ request: {"repo": <path the tool must be imported from>, "ops": [op, ...]}; ever
                                                      (sizes: what the tool's own parser reads back from the new manifest)
   {"op": "isostring", "values": [[y,m,d,H,M,S,us,fold,keep], ...]} -> {"texts": [...]}         utils.datetime_isostring
   {"op": "now_strings"}                            -> {"iso": ..., "fname": ..., "t0_ns": ..., "t1_ns": ...}
+  {"op": "flatten", "root": p, "dest": d}          -> {"outcome": ...}
 The offsets / transitions answers never touch datetime or the tool: they are the zone's definition as the C library sees
 it, which is what the oracle compares the tool's output with."""
 import json
@@ -100,6 +101,15 @@ def main():
             if not os.path.realpath(ascmhl.__file__).startswith(repo + os.sep):
                 raise SystemExit(f"tool imported from {ascmhl.__file__}, expected {repo}")
             out.append(run_create(op["root"], op["args"]))
+        elif k == "flatten":
+            from click.testing import CliRunner
+            import ascmhl.commands as commands
+
+            res = CliRunner().invoke(commands.flatten, [op["root"], op["dest"]], catch_exceptions=True)
+            if res.exception is not None and not isinstance(res.exception, SystemExit):
+                out.append({"outcome": ["abort", type(res.exception).__name__ + ": " + str(res.exception)[:300]]})
+            else:
+                out.append({"outcome": ["exit", res.exit_code]})
         elif k == "isostring":
             import datetime
             from ascmhl import utils
